@@ -840,6 +840,9 @@ class OpsMixin(object):
             return StrV(SCat(parts))
         if isinstance(seq, SeqV) and seq.kind in ("family", "seqmap"):
             var, lo, hi, elem, sv = self.loop_binder(seq, node)
+            if isinstance(sepn, SLit) and sepn.text == "":
+                body = to_node(elem)
+                return StrV(SSeqRep(var, sv.key(), body) if sv is not None else SRep(var, lo, hi, body))
             return StrV(SJoin(sepn, var, lo, hi, sv, to_node(elem)))
         self.err(node, "join over %r" % (seq,))
 
